@@ -380,10 +380,10 @@ def _bwo_off(view):
 
 
 BWO = 'construct.core:BytesIOWithOffsets'
-register(FnContract(BWO + '.tell', setup=bwo_setup, tags=('C08',), cases=[
+register(FnContract(BWO + '.tell', setup=bwo_setup, tags=('C08', 'C17'), cases=[
     Case('ok', 'return', lambda pre: t.TRUE, rkind=rk_dyn,
-         ensures=lambda pre, post: [('tell-is-inner-position-plus-parent-offset', size_is(post, t.add(_bwo(pre).pos, _bwo_off(pre))), ('C08',)),
-                                    ('position-unchanged', t.eq(_bwo(post).pos, _bwo(pre).pos), ('C08',))])]))
+         ensures=lambda pre, post: [('tell-is-inner-position-plus-parent-offset', size_is(post, t.add(_bwo(pre).pos, _bwo_off(pre))), ('C08', 'C17')),
+                                    ('position-unchanged', t.eq(_bwo(post).pos, _bwo(pre).pos), ('C08', 'C17'))])]))
 
 
 def _bwo_seek_target(pre):
@@ -397,10 +397,12 @@ def _bwo_seek_ok(pre):
     return t.or_(t.and_(t.eq(wh, t.ZERO), t.ge(t.sub(off, _bwo_off(pre)), t.ZERO)), t.eq(wh, t.ONE), t.eq(wh, I(2)))
 
 
-register(FnContract(BWO + '.seek', setup=bwo_setup, tags=('C08',), cases=[
+# (C17: a construct inside a delimited region gives the same result wherever the region starts in the outer stream - parse(bytes) and
+# parse_stream at offset k agree - exactly because the substream translates absolute positions and nothing else)
+register(FnContract(BWO + '.seek', setup=bwo_setup, tags=('C08', 'C17'), cases=[
     Case('ok', 'return', _bwo_seek_ok, rkind=rk_dyn,
-         ensures=lambda pre, post: [('absolute-seek-subtracts-the-parent-offset', t.eq(_bwo(post).pos, _bwo_seek_target(pre)), ('C08',)),
-                                    ('returns-the-new-absolute-position', size_is(post, t.add(_bwo_seek_target(pre), _bwo_off(pre))), ('C08',)),
+         ensures=lambda pre, post: [('absolute-seek-subtracts-the-parent-offset', t.eq(_bwo(post).pos, _bwo_seek_target(pre)), ('C08', 'C17')),
+                                    ('returns-the-new-absolute-position', size_is(post, t.add(_bwo_seek_target(pre), _bwo_off(pre))), ('C08', 'C17')),
                                     ('buffer-unchanged', t.and_(t.eq(_bwo(post).buf, _bwo(pre).buf), t.eq(_bwo(post).len, _bwo(pre).len)), ('C08',))]),
     Case('invalid', 'raise', lambda pre: t.not_(_bwo_seek_ok(pre)), exc='ValueError')]))
 
